@@ -33,6 +33,7 @@ type Obligation struct {
 	Backend string      `json:"backend"` // smt | static
 	Static  string      `json:"static,omitempty"` // for static obligations: "ok" or failure text
 	SMT     string      `json:"smt,omitempty"`
+	Parts   []string    `json:"parts,omitempty"` // one query per conjunct of the goal (all must be unsat)
 	Params  []ParamInfo `json:"params,omitempty"`
 	Results []ParamInfo `json:"results,omitempty"`
 	Cover   bool        `json:"cover,omitempty"` // expected SAT (vacuity guard)
@@ -111,6 +112,8 @@ type fnCtx struct {
 	strlits map[string]string
 	flags   map[string]string
 	fired   map[int]bool
+	modWhole map[string]bool
+	modPrecise map[string][]string
 	anchorLines map[int][]int
 	implDone map[string]bool
 	rets    []retSite
@@ -144,6 +147,7 @@ type loopInfo struct {
 	headSt  *State // state at header after havoc+assume
 	preSt   *State
 	autoGhost map[string]string
+	frameComps []string
 	localOnly map[string]bool          // components the loop writes only inside its own allocations
 	outerAllocs map[string][]*ssa.Alloc // ... or inside these allocations made before the loop
 }
@@ -221,6 +225,18 @@ func (c *fnCtx) sortOf(k Kind, t types.Type) string {
 // assume adds a fact to the current path.
 func (c *fnCtx) assume(st *State, fact string) {
 	if fact == "true" {
+		return
+	}
+	if strings.Contains(fact, "(forall ") || strings.Contains(fact, "(exists ") {
+		// quantified facts are asserted at top level, guarded by the path condition: inside a
+		// define-fun the solvers lose the triggers and stop instantiating them
+		for _, p := range splitAnd(fact) {
+			if strings.Contains(p, "(forall ") || strings.Contains(p, "(exists ") {
+				c.assertGlobal(sImp(st.cur, p))
+			} else {
+				st.cur = c.define("cur", "Bool", sAnd(st.cur, p))
+			}
+		}
 		return
 	}
 	st.cur = c.define("cur", "Bool", sAnd(st.cur, fact))
